@@ -15,8 +15,9 @@ git -C /repo worktree add -q --detach "$W" HEAD || exit 2
 cleanup() { git -C /repo worktree remove --force "$W" >/dev/null 2>&1; rm -rf "$W"; }
 trap cleanup EXIT
 demo="$D/demo_test.go"
-demo_pkg="$(python3 -c "import json,sys;m=json.load(open('$D/meta.json'));print(m.get('demo_pkg',''))" 2>/dev/null)"
-demo_cmd="$(python3 -c "import json,sys;m=json.load(open('$D/meta.json'));print(m.get('demo_cmd',''))" 2>/dev/null)"
+META="$D/agent_meta.json"; [ -f "$META" ] || META="$D/meta.json"
+demo_pkg="$(python3 -c "import json,sys;m=json.load(open('$META'));print(m.get('demo_pkg',''))" 2>/dev/null)"
+demo_cmd="$(python3 -c "import json,sys;m=json.load(open('$META'));print(m.get('demo_cmd',''))" 2>/dev/null)"
 if [ -z "$demo_pkg" ]; then
   # derive package dir from the demo command: last ./pkg/ argument
   demo_pkg="$(echo "$demo_cmd" | grep -o '\./[a-zA-Z0-9_/]*' | tail -1)"
